@@ -498,4 +498,135 @@ theorem pointer_arith (mn mx prevOff off prevOp op : Nat) (_hmn : 1 ≤ mn) (hmx
   rw [hsum, Nat.add_mul_mod_self_left, Nat.mod_eq_of_lt hop, Nat.add_mul_div_left _ _ (by omega),
     Nat.div_eq_of_lt hop, Nat.zero_add, hdvd]
   exact ⟨rfl, by omega⟩
+
+theorem linePart_noSpecial (e : Enc) (la : Int) (op : Nat) : WInstr.special op ∉ (linePart e la).2.2 := by
+  unfold linePart
+  by_cases h0 : la ≠ 0
+  · by_cases h1 : (Leb.ofI64 la + 2 ^ 64 - Leb.ofI64 e.lineBase) % 2 ^ 64 < e.lineRange
+    · simp [h0, h1]
+    · simp [h0, h1]
+  · simp [h0]
+
+theorem opPart_noSpecial (m : Mode) (e : Enc) (s : Nat) (us : Bool) (oa : Nat) (s' : Nat) (us' : Bool)
+    (is : List WInstr) (h : opPart m e s us oa = .ok (s', us', is)) (op : Nat) :
+    WInstr.special op ∉ is := by
+  unfold opPart at h
+  split at h
+  · -- oa ≠ 0
+    split at h
+    · simp only [Out.bind_ok] at h
+      split at h <;> simp only [Out.pure_eq, Out.ok.injEq, Prod.mk.injEq] at h <;>
+        (obtain ⟨_, _, rfl⟩ := h; simp)
+    · split at h
+      · cases h
+      · cases hs : subM m oa ((255 - opcodeBase) / e.lineRange) with
+        | ok v =>
+          simp only [hs, Out.bind_ok, Out.pure_eq] at h
+          split at h <;> simp only [Out.ok.injEq, Prod.mk.injEq] at h <;>
+            (obtain ⟨_, _, rfl⟩ := h; simp)
+        | err x => simp [hs] at h
+        | panic w => simp [hs] at h
+        | diverge => simp [hs] at h
+  · simp only [Out.pure_eq, Out.ok.injEq, Prod.mk.injEq] at h
+    obtain ⟨_, _, rfl⟩ := h; simp
+
+/-- debug builds: the two `debug_assert!`s make an out-of-range special opcode a panic -/
+theorem finalPart_debug_range (e : Enc) (s : Nat) (us : Bool) (op : Nat)
+    (h : finalPart .debug e s us = .ok (.special op)) : 13 ≤ op ∧ op ≤ 255 := by
+  unfold finalPart at h
+  split at h
+  · split at h
+    · cases h
+    · split at h
+      · cases h
+      · rename_i h1 h2
+        simp only [true_and, Nat.not_lt, Nat.not_lt, gt_iff_lt] at h1 h2
+        unfold opcodeBase at h1
+        simp only [Out.ok.injEq, WInstr.special.injEq] at h
+        subst h
+        have : s % 256 = s := Nat.mod_eq_of_lt (by omega)
+        omega
+  · cases h
+
+theorem resetFieldInstrs_noSpecial (row : WRow) (op : Nat) : WInstr.special op ∉ resetFieldInstrs row := by
+  unfold resetFieldInstrs
+  by_cases c1 : row.discriminator ≠ 0 <;> cases row.basicBlock <;> cases row.prologueEnd <;>
+    cases row.epilogueBegin <;> simp [c1]
+
+theorem stickyFieldInstrs_noSpecial (prev row : WRow) (op : Nat) :
+    WInstr.special op ∉ stickyFieldInstrs prev row := by
+  unfold stickyFieldInstrs
+  by_cases c1 : row.isStmt ≠ prev.isStmt <;> by_cases c2 : row.file ≠ prev.file <;>
+    by_cases c3 : row.column ≠ prev.column <;> by_cases c4 : row.isa ≠ prev.isa <;> simp [c1, c2, c3, c4]
+
+/-- a special opcode in the output of `advanceInstrs` is the one `finalPart` produced -/
+theorem advanceInstrs_special_mem (m : Mode) (e : Enc) (la : Int) (oa : Nat) (is : List WInstr)
+    (h : advanceInstrs m e la oa = .ok is) (op : Nat) (hm : WInstr.special op ∈ is) :
+    ∃ s us ois, finalPart m e s us = .ok (.special op) ∧
+      opPart m e (linePart e la).1 (linePart e la).2.1 oa = .ok (s, us, ois) := by
+  unfold advanceInstrs at h
+  cases hO : opPart m e (linePart e la).1 (linePart e la).2.1 oa with
+  | ok v =>
+    obtain ⟨s, us, ois⟩ := v
+    simp only [hO, Out.bind_ok] at h
+    cases hF : finalPart m e s us with
+    | ok fin =>
+      simp only [hF, Out.bind_ok, Out.pure_eq, Out.ok.injEq] at h
+      subst h
+      simp only [List.append_assoc, List.mem_append, List.mem_cons, List.not_mem_nil, or_false] at hm
+      rcases hm with hm | hm | hm
+      · exact absurd hm (linePart_noSpecial e la op)
+      · exact absurd hm (opPart_noSpecial m e _ _ oa s us ois hO op)
+      · subst hm
+        exact ⟨s, us, ois, hF, rfl⟩
+    | err x => simp [hF] at h
+    | panic w => simp [hF] at h
+    | diverge => simp [hF] at h
+  | err x => simp [hO] at h
+  | panic w => simp [hO] at h
+  | diverge => simp [hO] at h
+
+theorem lineAdvance_range (m : Mode) (a b : Nat) (la : Int) (h : lineAdvance m a b = .ok la) :
+    -(2 ^ 63 : Int) ≤ la ∧ la < 2 ^ 63 := by
+  unfold lineAdvance at h
+  simp only at h
+  split at h
+  · simp only [Out.ok.injEq] at h; subst h; assumption
+  · cases m with
+    | debug => cases h
+    | release =>
+      simp only [Out.ok.injEq] at h
+      subst h
+      unfold wrapI64
+      omega
+
+/-- with a `LineEncoding` that `new` accepts in debug builds (more generally `line_range ≤ 243`),
+in any build mode, the special opcode pushed is in 13..255 -/
+theorem advanceInstrs_special_range (m : Mode) (e : Enc) (la : Int) (oa : Nat) (is : List WInstr)
+    (h1 : -128 ≤ e.lineBase) (h2 : e.lineBase ≤ 0) (hr : 0 < e.lineBase + e.lineRange)
+    (hlr : e.lineRange ≤ 243) (hla : -(2 ^ 63 : Int) ≤ la ∧ la < 2 ^ 63)
+    (h : advanceInstrs m e la oa = .ok is) (op : Nat) (hm : WInstr.special op ∈ is) :
+    13 ≤ op ∧ op ≤ 255 := by
+  obtain ⟨pl, lis, hL, hlo, hhi, _⟩ := linePart_spec e la h1 h2 hr (by omega) hla
+  obtain ⟨po, us', ois, hO, hle, _⟩ :=
+    opPart_spec m e (pl - e.lineBase).toNat (decide (pl ≠ 0)) oa (by omega) hlr
+  obtain ⟨s, us, ois', hF, hO'⟩ := advanceInstrs_special_mem m e la oa is h op hm
+  rw [hL] at hO'
+  simp only at hO'
+  rw [hO] at hO'
+  simp only [Out.ok.injEq, Prod.mk.injEq] at hO'
+  obtain ⟨hs, _, _⟩ := hO'
+  subst hs
+  unfold finalPart at hF
+  split at hF
+  · split at hF
+    · cases hF
+    · split at hF
+      · cases hF
+      · simp only [Out.ok.injEq, WInstr.special.injEq] at hF
+        subst hF
+        have : (13 + (pl - e.lineBase).toNat + po * e.lineRange) % 256 =
+            13 + (pl - e.lineBase).toNat + po * e.lineRange := Nat.mod_eq_of_lt (by omega)
+        omega
+  · cases hF
 end Gimli.WLine
